@@ -949,7 +949,8 @@ func clash3World(t *rapid.T) *World {
 // only now and then: (1) two referrers in two packages share one declaration of a third
 // package; (2) two ids share one file+package and a third file refers into the second;
 // (3) two ids in one output with --schema-root-type each; (4) same-basename packages with
-// a definition called Shared in each; plus the clash3 world. Every ordering of every
+// a definition called Shared in each; (5) a shared package ending in /v2 next to the mapstructure/v2 import; (6) two
+// documents under one $id; plus the clash3 world. Every ordering of every
 // non-empty subset of the files is run.
 func c20BatteryWorlds() []*World {
 	str := Obj{{"type", "string"}}
@@ -1018,6 +1019,36 @@ func c20BatteryWorlds() []*World {
 		t0, t1 := mk("t0", 1), mk("t1", 2)
 		w := &World{Root: "/w", Cwd: "/w", Files: []*SFile{t0, t1}, Opts: Options{Package: "example.com/m/main/v1", Output: "out/main/gen.go", Caps: []string{"ID", "URL"},
 			SchemaPkg: []Pair{{t0.ID, "example.com/m/pk1/v1"}, {t1.ID, "example.com/m/pk2/v1"}}, SchemaOut: []Pair{{t0.ID, "out/pk1/gen.go"}, {t1.ID, "out/pk2/gen.go"}}}}
+		ws = append(ws, w)
+	}
+	// (5) the shared package ends in /v2; one referrer also carries a map with typed values (its file imports
+	// github.com/go-viper/mapstructure/v2, whose last path element is v2 as well, before it meets the reference)
+	{
+		t2 := mkFile("t2", 2, func(f *SFile) Obj { return obj(Obj{{"mk_t2", str}}, Obj{def("t2", "T2Da")}, f.ID) }, []string{"T2Da"}, nil)
+		t0 := mkFile("t0", 0, func(f *SFile) Obj {
+			return obj(Obj{{"mk_t0", str}, {"t0r1", Obj{{"$ref", "t2f.json#/$defs/T2Da"}}}, {"t0labels", Obj{{"$ref", "#/$defs/AaLabels"}}}},
+				Obj{{"AaLabels", Obj{{"type", "object"}, {"properties", Obj{{"owner", str}}}, {"additionalProperties", str}}}}, f.ID)
+		}, nil, []RefUse{{FromTag: "t0", Prop: "t0r1", Ref: "t2f.json#/$defs/T2Da", ToTag: "t2", ToDef: "T2Da"}})
+		t1 := mkFile("t1", 1, func(f *SFile) Obj {
+			return obj(Obj{{"mk_t1", str}, {"t1r1", Obj{{"$ref", "t2f.json#/$defs/T2Da"}}}}, nil, f.ID)
+		}, nil, []RefUse{{FromTag: "t1", Prop: "t1r1", Ref: "t2f.json#/$defs/T2Da", ToTag: "t2", ToDef: "T2Da"}})
+		w := &World{Root: "/w", Cwd: "/w", Files: []*SFile{t0, t1, t2}, Opts: Options{Package: "example.com/m/main", Output: "out/main/gen.go",
+			SchemaPkg: []Pair{{t1.ID, "example.com/m/pk1"}, {t2.ID, "example.com/m/pk2/v2"}}, SchemaOut: []Pair{{t1.ID, "out/pk1/gen.go"}, {t2.ID, "out/pk2/gen.go"}}}}
+		ws = append(ws, w)
+	}
+	// (6) two different documents carry one $id (and therefore one package and one output); a third refers into the second
+	{
+		t0 := mkFile("t0", 1, func(f *SFile) Obj { return obj(Obj{{"mk_t0", str}}, Obj{def("t0", "T0Da")}, f.ID) }, []string{"T0Da"}, nil)
+		t1 := mkFile("t1", 1, func(f *SFile) Obj {
+			return obj(Obj{{"mk_t1", str}}, Obj{def("t1", "T1Da"), def("t1", "T1Db")}, "https://example.com/t0")
+		}, []string{"T1Da", "T1Db"}, nil)
+		t1.ID = t0.ID
+		t2 := mkFile("t2", 0, func(f *SFile) Obj {
+			return obj(Obj{{"mk_t2", str}, {"t2r1", Obj{{"$ref", "t1f.json#/$defs/T1Da"}}}}, nil, f.ID)
+		}, nil, []RefUse{{FromTag: "t2", Prop: "t2r1", Ref: "t1f.json#/$defs/T1Da", ToTag: "t1", ToDef: "T1Da"}})
+		w := &World{Root: "/w", Cwd: "/w", Files: []*SFile{t0, t1, t2}, Opts: Options{Package: "example.com/m/main", Output: "out/main/gen.go",
+			SchemaPkg: []Pair{{t0.ID, "example.com/m/pk1"}}, SchemaOut: []Pair{{t0.ID, "out/pk1/gen.go"}}}}
+		w.Feat.SharedID = true
 		ws = append(ws, w)
 	}
 	return ws
